@@ -50,6 +50,14 @@ FAMILY = {
 }
 FAMILY['name-keyword'] = [R('start', ('seq', ('pclo', ('alt', C('id'), T('ab'))), ('eof',))),
                           R('id', ('pat', '[ab]+'), decorators=('name',))]
+# a rule that fails semantically is retried at the same position (memo hit), then an alternative that does not need it
+FAMILY['retry-then-other'] = [R('start', ('alt', ('seq', C('x'), T('b'), T('b')), ('seq', C('x'), ('eof',)), C('w'))),
+                              R('x', ('alt', T('a'), T('b'))), R('w', ('seq', ('alt', T('a'), T('b')), ('opt', T('b'))))]
+# based rules: own parameters win, otherwise the base's are inherited
+FAMILY['based-params'] = [R('start', ('seq', ('pclo', ('alt', C('signed'), C('plain'), C('number'))), ('eof',))),
+                          R('number', T('a'), params=('Number',)),
+                          R('signed', T('b'), params=('Signed', 'Int'), base='number'),
+                          R('plain', T('a'), base='number')]
 FAMILY_KEYWORDS = {'name-keyword': ('ab', 'b')}
 NONMEMO_RULES = {'retry-nomemo': {'x'}}
 LR_FAMILY = {
@@ -175,7 +183,11 @@ def ref_run(g, text, kind, arg=None, start=None):
     log = []
 
     def action(rule, value, q, p2):
-        log.append(((rule.name, q, p2), value, tuple(rule.params), tuple(sorted(rule.kwparams))))
+        params, kwparams = rule.params, rule.kwparams
+        if rule.base and not params:
+            base = next(r for r in g.rules if r.name == rule.base)      # documented: parameters are inherited unless given
+            params, kwparams = base.params, (kwparams or base.kwparams)
+        log.append(((rule.name, q, p2), value, tuple(params), tuple(sorted(kwparams))))
         if kind == 'tagging':
             return ['<tuple>', '<T>', rule.name, value]
         if kind == 'failon' and rule.name == arg[0] and value == arg[1]:
